@@ -36,6 +36,17 @@ func main() {
 		}
 		refs = append(refs, r)
 	}
+	// requests of the three body / query front ends on one shared schema
+	for i := 0; i < 2; i++ {
+		g := &eng.Gen{R: eng.NewRng(*seed*9999 + uint64(i)), P: eng.ProfileByName("C08")}
+		s := g.FrontEndSpec(9)
+		specs = append(specs, s)
+		var r []string
+		for v := 0; v < s.Variants(); v++ {
+			r = append(r, s.RunVariant(v, false))
+		}
+		refs = append(refs, r)
+	}
 	var wrong, total int64
 	var first atomic.Value
 	var wg sync.WaitGroup
